@@ -778,6 +778,7 @@ var MergeFunc = function.New(&function.Spec{
 		first := cty.NilType
 		matching := true
 		attrsKnown := true
+		allNullObjects := true
 		for i, arg := range args {
 			ty := arg.Type()
 			// any dynamic args mean we can't compute a type
@@ -791,6 +792,9 @@ var MergeFunc = function.New(&function.Spec{
 			}
 			// marks are attached to values, so ignore while determining type
 			arg, _ = arg.Unmark()
+			if !(ty.IsObjectType() && arg.IsNull()) {
+				allNullObjects = false
+			}
 
 			switch {
 			case ty.IsObjectType() && !arg.IsNull():
@@ -825,8 +829,10 @@ var MergeFunc = function.New(&function.Spec{
 			}
 		}
 
-		// the types all match, so use the first argument type
-		if matching {
+		// the types all match, so use the first argument type (unless every
+		// argument is a null object: nothing is merged then, and the result
+		// is the empty object)
+		if matching && !allNullObjects {
 			return first, nil
 		}
 
